@@ -24,6 +24,7 @@ Section P.
   Local Notation name_at := (PrimarySpec.name_at u code L).
   Local Notation stops_before := (PrimarySpec.stops_before u code L F).
   Local Notation chain_from := (PrimarySpec.chain_from u code L F).
+  Local Notation attr_dot := (PrimarySpec.attr_dot u code L).
 
   Lemma getC_chr i c : 0 <= i < L -> chr i c -> getC code L i = Val c.
   Proof.
@@ -104,8 +105,8 @@ Section P.
 
   (* _find_primary_without_dot_start at an offset inside a name returns the start of the name *)
   Lemma pwds_in_name s e o aux fuel : name_at s e -> s <= o < e ->
-    (iskeyword (sliceC code L s (o + 1)) = false \/ o + 1 < e \/ (0 < s /\ chr (s - 1) cDOT)) -> (3 <= fuel)%nat ->
-    finder u code L F fuel 1 o aux = Val s.
+    (iskeyword (sliceC code L s (o + 1)) = false \/ o + 1 < e \/ attr_dot s) -> (3 <= fuel)%nat ->
+    finder u code L F false fuel 1 o aux = Val s.
   Proof.
     intros Hn Ho Hkw Hf. pose proof Hn as (Hse & HeL & Hall & Hleft).
     destruct fuel as [|[|[|f]]]; try lia.
@@ -125,7 +126,7 @@ Section P.
     unfold char_in. rewrite ?(getC_chr o c ltac:(lia) Hc). cbn [bind]. rewrite S5. cbn [bind]. rewrite S6. cbn [bind].
     rewrite ?(is_id_true o ltac:(lia) Hid). cbn [bind].
     rewrite (word_start_in_name s e o Hn Ho). cbn [bind].
-    destruct Hkw as [Hkw|[Hnext|[Hs0 Hdot]]].
+    destruct Hkw as [Hkw|[Hnext|(Hs0 & Hdot & s2 & c2 & Hn2 & Hc2 & Hdig)]].
     - rewrite Hkw. cbn [negb orb]. destruct (Z.ltb_spec (o + 1) L); [|reflexivity].
       destruct (is_id_in u code L HL (o + 1) ltac:(lia)) as (b & Hb & _). rewrite Hb. reflexivity.
     - destruct (Z.ltb_spec (o + 1) L); [|lia].
@@ -136,9 +137,19 @@ Section P.
         destruct (is_id_in u code L HL (o + 1) ltac:(lia)) as (b & Hb & _). exists b. exact Hb. }
       destruct Hnx as (b & Hb). rewrite Hb. cbn [bind].
       destruct (negb (iskeyword (sliceC code L s (o + 1))) || b); [reflexivity|].
+      unfold follows_dot.
       rewrite (lns_stop F (s - 1) cDOT ltac:(lia) Hdot (or_introl eq_refl) ltac:(lia)). cbn [bind].
-      destruct (Z.leb_spec 0 (s - 1)); [|lia].
-      rewrite (getC_chr (s - 1) cDOT ltac:(lia) Hdot). cbn [bind]. rewrite N.eqb_refl. reflexivity.
+      destruct (Z.ltb_spec (s - 1) 0); [lia|].
+      rewrite (getC_chr (s - 1) cDOT ltac:(lia) Hdot). cbn [bind]. rewrite N.eqb_refl. cbn [negb].
+      (* the word before the dot is the name [s2, s-1): it does not start with a digit *)
+      pose proof Hn2 as (Hse2 & HeL2 & Hall2 & _).
+      assert (Hid2 : idc (s - 1 - 1) true) by (apply Hall2; lia).
+      destruct (idc_chr _ Hid2) as (cb & Hcb & Hcbid).
+      rewrite (lns_stop F (s - 1 - 1) cb ltac:(lia) Hcb (or_introl (Hsp cb Hcbid)) ltac:(lia)). cbn [bind].
+      destruct (Z.ltb_spec (s - 1 - 1) 0); [lia|].
+      rewrite (is_id_true (s - 1 - 1) ltac:(lia) Hid2). cbn [bind negb].
+      rewrite (word_start_in_name s2 (s - 1) (s - 1 - 1) Hn2 ltac:(lia)). cbn [bind].
+      rewrite (getC_chr s2 c2 ltac:(lia) Hc2). cbn [bind]. rewrite Hdig. reflexivity.
   Qed.
 
   (* the four characters before the dot spell f-r-o-m only when the name is longer than that (the name is not from itself) *)
@@ -172,10 +183,10 @@ Section P.
 
   (* one step of the loop of _find_primary_start: from the start s of a name preceded by "name'." to the start of name' *)
   Lemma loop6_step s s' e' f : name_at s' e' -> e' + 1 = s -> chr e' cDOT -> s <= L ->
-    (iskeyword (sliceC code L s' e') = false \/ (0 < s' /\ chr (s' - 1) cDOT)) ->
+    (iskeyword (sliceC code L s' e') = false \/ attr_dot s') ->
     text_eqb (sliceC code L s' e') s_from = false ->
     (3 <= f)%nat ->
-    finder u code L F (S f) 6 s 0 = finder u code L F f 6 s' 0.
+    finder u code L F false (S f) 6 s 0 = finder u code L F false f 6 s' 0.
   Proof.
     intros Hn Hes Hdot HsL Hkw Hnf Hf. pose proof Hn as (Hse & HeL & Hall & Hleft).
     cbn [finder]. destruct (Z.ltb_spec 0 s); [|lia].
@@ -198,7 +209,7 @@ Section P.
     cbn [bind]. rewrite (is_id_true s' ltac:(lia) (Hall s' ltac:(lia))). cbn [bind]. reflexivity.
   Qed.
 
-  Lemma loop6_end a f : 0 <= a -> stops_before a -> finder u code L F (S f) 6 a 0 = Val a.
+  Lemma loop6_end a f : 0 <= a -> stops_before a -> finder u code L F false (S f) 6 a 0 = Val a.
   Proof.
     intros Ha Hst. cbn [finder]. destruct (Z.ltb_spec 0 a); [|reflexivity].
     destruct Hst as [->|(p & cp & Hp & Hcp & Hne)]; [lia|].
@@ -213,22 +224,13 @@ Section P.
     split; [apply (lns_stop F (a - 1) c ltac:(lia) Hc Hs ltac:(lia))|]. split; [apply getC_chr; [lia|exact Hc]|exact Hne].
   Qed.
 
-  (* a name that has more names to its left follows a dot *)
-  Lemma chain_follows_dot s a n : chain_from s a (S n) -> 0 < s /\ chr (s - 1) cDOT.
-  Proof.
-    intros H. inversion H as [|s0 s' e' a0 n0 (Hse & _) Hes Hdot _ _ _ _]; subst.
-    replace (e' + 1 - 1) with e' by lia. split; [lia|exact Hdot].
-  Qed.
-
   Lemma chain_loop s a n : chain_from s a n -> forall fuel, (4 * n + 4 <= fuel)%nat ->
-    finder u code L F fuel 6 s 0 = Val a.
+    finder u code L F false fuel 6 s 0 = Val a.
   Proof.
     induction 1 as [s Hs Hst|s s' e' a n Hn Hes Hdot HsL Hkw Hnf Hch IH]; intros fuel Hf.
     - destruct fuel as [|f]; [lia|]. apply loop6_end; assumption.
     - destruct fuel as [|f]; [lia|].
-      assert (Hkw' : iskeyword (sliceC code L s' e') = false \/ (0 < s' /\ chr (s' - 1) cDOT)).
-      { destruct n as [|m]; [left; apply Hkw; reflexivity|right; eapply chain_follows_dot; exact Hch]. }
-      rewrite (loop6_step s s' e' f Hn Hes Hdot HsL Hkw' Hnf ltac:(lia)). apply IH. lia.
+      rewrite (loop6_step s s' e' f Hn Hes Hdot HsL Hkw Hnf ltac:(lia)). apply IH. lia.
   Qed.
 
   Lemma chain_size s a n : chain_from s a n -> 0 <= a /\ a + 2 * Z.of_nat n <= s.
@@ -239,19 +241,16 @@ Section P.
   (* the theorem: at any offset o of the last name [s, e) of a chain starting at a, the primary is [a, e) *)
   Theorem primary_chain s e o a n :
     name_at s e -> (e = L \/ idc e false) -> s <= o < e ->
-    (n = O -> iskeyword (sliceC code L s (o + 1)) = false \/ o + 1 < e) ->
+    (iskeyword (sliceC code L s (o + 1)) = false \/ o + 1 < e \/ attr_dot s) ->
     chain_from s a n -> (4 * n + 6 <= F)%nat ->
-    get_primary_range u code L F o = Val (a, e).
+    get_primary_range u code L F false o = Val (a, e).
   Proof.
-    intros Hn Hright Ho Hkw0 Hch HFn. pose proof Hn as (Hse & HeL & Hall & Hleft).
-    assert (Hkw : iskeyword (sliceC code L s (o + 1)) = false \/ o + 1 < e \/ (0 < s /\ chr (s - 1) cDOT)).
-    { destruct n as [|m]; [destruct (Hkw0 eq_refl) as [H|H]; [left; exact H|right; left; exact H]|].
-      right; right. eapply chain_follows_dot; exact Hch. }
+    intros Hn Hright Ho Hkw Hch HFn. pose proof Hn as (Hse & HeL & Hall & Hleft).
     unfold get_primary_range, primary_start.
     assert (Hid : idc o true) by (apply Hall; lia).
     destruct (idc_chr o Hid) as (c & Hc & Hcid).
     destruct (id_char_special c Hcid) as (S1 & _).
-    assert (Hfind : forall fuel, (4 * n + 6 <= fuel)%nat -> finder u code L F fuel 0 o 0 = Val a).
+    assert (Hfind : forall fuel, (4 * n + 6 <= fuel)%nat -> finder u code L F false fuel 0 o 0 = Val a).
     { intros fuel Hfu. destruct fuel as [|f]; [lia|].
       cbn [finder]. destruct (Z.leb_spec L o); [lia|].
       rewrite (getC_chr o c ltac:(lia) Hc). cbn [bind]. rewrite S1.
@@ -275,7 +274,7 @@ End P.
 Theorem primary_chain_entry u code s e o a n :
   (forall c, is_id_char u c = true -> isspace u c = false) ->
   name_at u code (lenZ code) s e -> (e = lenZ code \/ idc u code e false) -> s <= o < e ->
-  (n = O -> iskeyword (sliceC code (lenZ code) s (o + 1)) = false \/ o + 1 < e) ->
+  (iskeyword (sliceC code (lenZ code) s (o + 1)) = false \/ o + 1 < e \/ attr_dot u code (lenZ code) s) ->
   chain_from u code (lenZ code) (fuel_for code) s a n ->
   w_primary_range u code o = Val (a, e).
 Proof.
@@ -287,7 +286,7 @@ Proof.
 Qed.
 
 (* the ASCII-only table satisfies the white-space hypothesis *)
-Lemma ascii_table_ok : forall c, is_id_char (table_of [] [] []) c = true -> isspace (table_of [] [] []) c = false.
+Lemma ascii_table_ok : forall c, is_id_char (table_of [] [] [] []) c = true -> isspace (table_of [] [] [] []) c = false.
 Proof.
   intros c H. unfold is_id_char, isspace, table_of, xid_hi, space_hi, cUNDER in *. cbn [existsb] in *.
   destruct (N.ltb_spec c 128) as [Hc|Hc].
@@ -301,9 +300,9 @@ Qed.
 
 (* non-vacuity: ab.cd.ef  at offset 7 (inside ef): all hypotheses hold and the primary is [0, 8) *)
 Example primary_chain_example :
-  w_primary_range (table_of [] [] []) [97; 98; 46; 99; 100; 46; 101; 102]%N 7 = Val (0, 8).
+  w_primary_range (table_of [] [] [] []) [97; 98; 46; 99; 100; 46; 101; 102]%N 7 = Val (0, 8).
 Proof.
-  set (code := [97; 98; 46; 99; 100; 46; 101; 102]%N). set (u := table_of [] [] []).
+  set (code := [97; 98; 46; 99; 100; 46; 101; 102]%N). set (u := table_of [] [] [] []).
   assert (Hid : forall i lo hi, 0 <= lo -> lo <= i < hi -> (forall k, (k < Z.to_nat (hi - lo))%nat ->
             exists c, nth_error code (Z.to_nat lo + k) = Some c /\ is_id_char u c = true) -> idc u code i true).
   { intros i lo hi Hlo Hi Hk. destruct (Hk (Z.to_nat (i - lo)) ltac:(lia)) as (c & H1 & H2).
@@ -323,14 +322,14 @@ Proof.
   apply (primary_chain_entry u code 6 8 7 0 2 ascii_table_ok N3).
   - left; reflexivity.
   - lia.
-  - intros H; discriminate.
-  - eapply chain_more with (s' := 3) (e' := 5); [exact N2|reflexivity|reflexivity|cbn; lia|intros H; discriminate|reflexivity|].
-    eapply chain_more with (s' := 0) (e' := 2); [exact N1|reflexivity|reflexivity|cbn; lia|reflexivity|reflexivity|].
+  - left; reflexivity.
+  - eapply chain_more with (s' := 3) (e' := 5); [exact N2|reflexivity|reflexivity|cbn; lia|left; reflexivity|reflexivity|].
+    eapply chain_more with (s' := 0) (e' := 2); [exact N1|reflexivity|reflexivity|cbn; lia|left; reflexivity|reflexivity|].
     apply chain_one; [lia|left; reflexivity].
 Qed.
 
 (* names after a dot may be spelled like keywords (rope 2b4039e):  s.is.x  at the x, and at the last letter of is *)
 Example primary_keyword_attribute_example :
-  w_primary_range (table_of [] [] []) [115; 46; 105; 115; 46; 120]%N 5 = Val (0, 6)
-  /\ w_primary_range (table_of [] [] []) [115; 46; 105; 115; 46; 120]%N 3 = Val (0, 4).
+  w_primary_range (table_of [] [] [] []) [115; 46; 105; 115; 46; 120]%N 5 = Val (0, 6)
+  /\ w_primary_range (table_of [] [] [] []) [115; 46; 105; 115; 46; 120]%N 3 = Val (0, 4).
 Proof. vm_compute. split; reflexivity. Qed.
